@@ -252,4 +252,28 @@ theorem argmin_spec (L : List Rat) (hL : L ≠ []) :
       subst this; simp
     · intro j hj; omega
 
+/-! ### get_component -/
+
+theorem foldr_peel (T : Tensor) : ∀ (comp idx : List Nat),
+    comp.foldr (fun k acc => peelLast acc k) T idx = T (idx ++ comp)
+  | [], idx => by simp
+  | a :: rest, idx => by
+    rw [List.foldr_cons]
+    show (rest.foldr (fun k acc => peelLast acc k) T) (idx ++ [a]) = T (idx ++ a :: rest)
+    rw [foldr_peel T rest (idx ++ [a])]
+    simp
+
+theorem foldl_peel (T : Tensor) : ∀ (comp idx : List Nat),
+    comp.foldl peelLast T idx = T (idx ++ comp.reverse)
+  | [], idx => by simp
+  | a :: rest, idx => by
+    rw [List.foldl_cons, foldl_peel (peelLast T a) rest idx]
+    show T ((idx ++ rest.reverse) ++ [a]) = T (idx ++ (a :: rest).reverse)
+    simp
+
+theorem getD_map_default {α β} (f : α → β) (l : List α) (i : Nat) (d : α) :
+    (l.map f).getD i (f d) = f (l.getD i d) := by
+  rw [List.getD_eq_getElem?_getD, List.getD_eq_getElem?_getD, List.getElem?_map]
+  cases l[i]? <;> rfl
+
 end WB.C29
